@@ -48,8 +48,13 @@ def harness_bin():
     return os.path.join(target, 'release', 'pv-replay'), None
 
 
+_BIN = []
+
+
 def run_harness(args, timeout=600):
-    b, err = harness_bin()
+    if not _BIN:
+        _BIN.append(harness_bin())      # built once per check run (incremental: always the current tree)
+    b, err = _BIN[0]
     if b is None:
         return None, err
     try:
@@ -138,8 +143,12 @@ def bounded_leaves(prop, work, tier, seed, open_known):
     if not specs or NOHARNESS:
         return {'report': [{'note': 'bounded harness not run (VERIF_REPO override)'}]} if specs else {}
     res = {'report': [], 'violations': [], 'known_lines': [], 'evaluations': 0, 'distinct_nontrivial': 0, 'rule': ''}
-    for spec in specs:
-        out, err = run_harness(['search', spec['harness'], '--tier', tier, '--seed', str(seed)])
+    if not _BIN:
+        _BIN.append(harness_bin())
+    import concurrent.futures as _cf
+    with _cf.ThreadPoolExecutor(max(1, len(specs))) as ex:
+        outs = list(ex.map(lambda sp: run_harness(['search', sp['harness'], '--tier', tier, '--seed', str(seed)]), specs))
+    for spec, (out, err) in zip(specs, outs):
         if out is None:
             res['report'].append({'harness': spec['harness'], 'error': err})
             res['violations'].append({'obligation': 'bounded:%s' % spec['harness'], 'path': _write(work, 'bounded_' + spec['harness'], {'error': err}),
@@ -155,6 +164,8 @@ def bounded_leaves(prop, work, tier, seed, open_known):
         for f in out.get('failures', []):
             if spec.get('fns') and f.get('fn') not in spec['fns']:
                 continue
+            if spec.get('classes') and f.get('class') not in spec['classes']:
+                continue   # e.g. C23 listens to every harness, but only for panics
             by_fn.setdefault(f.get('fn'), []).append(f)
         for fn, fs in by_fn.items():
             ob = 'bounded:%s:%s' % (spec['harness'], fn)
